@@ -320,16 +320,18 @@ Proof. exact exact_motion_3d_example. Qed.
    Eigen::Vector2 / Vector3 / HomogeneousCoordinates2 / HomogeneousCoordinates3 = tags V2 / V3 / H2 / H3; the float and the
    double instantiation give the same term): the constructor, setPreconditioner, the two estimate_ overloads (aligned
    arrays / correspondence vector; only the `CARTESIAN_DIM == 2` branch that is taken is executed) and the four public find
-   overloads.  In the generated terms the member leastSquares_ is an abstract object of type Ls whose methods are function
-   arguments (F_estimateUsingSVD, F_getJ_set = `J(i, j) = v`, F_getY_set = `Y(i) = v`, F_setDataSize, ...).  The theorems
-   below hold for EVERY numeric dictionary N — the generated terms and the model perform the same dictionary operations in
-   the same order — and instantiate Ls in three ways (coq/SrcTieC05.v):
-     fJY   = (nat -> nat -> T) * (nat -> T): the coefficients of J and Y as functions of the indexes (f_setJ / f_setY update
-             one coefficient) — what the row-filling loop writes;
-     unit  : the solver plays no role — what is returned for a solver answer x;
-     option ls_state: the state of LsModel.v with coefficient writes o_setJ / o_setY (outside the buffers: None), o_setDataSize
-             = ls_set_data_size, o_estimate = ls_estimate_svd (svd_fixed = true) / ls_estimate_svd_abs — the whole call;
-             [pack] turns (state, matrix) into the option result of the model.
+   overloads.  In the generated terms the member leastSquares_ is an abstract object of type Ls and the methods called on
+   it are the fields, bound by name, of an argument M : LsMethods T Ls (coq/SrcP2pLib.v: F_new, F_setEstimateSize,
+   F_setDataSize, F_getJ_set = `J(i, j) = v`, F_getY_set = `Y(i) = v`, F_estimateUsingSVD, F_setPreconditionner).  The
+   theorems below hold for EVERY numeric dictionary N — the generated terms and the model perform the same dictionary
+   operations in the same order — and instantiate (Ls, M) in three ways (coq/SrcTieC05.v):
+     fJY, f_methods N x : Ls = (nat -> nat -> T) * (nat -> T), the coefficients of J and Y as functions of the indexes
+             (F_getJ_set / F_getY_set update one coefficient, the solver answers x) — what the row-filling loop writes;
+     unit, u_methods x  : the solver plays no role and answers x — what is returned;
+     option ls_state, o_methods N svd_of fill svd_fixed : the state of LsModel.v; coefficient writes o_setJ / o_setY (outside
+             the buffers: undefined behaviour, None), setDataSize = ls_set_data_size, estimateUsingSVD = ls_estimate_svd
+             (svd_fixed = true) / ls_estimate_svd_abs, setEstimateSize, setPreconditionner, LeastSquares() = ls_new0 — the
+             whole call; [pack] turns (state, matrix) into the option result of the model.
    dtriple = (([], []), []) is the default triple of the [nth] lookups. *)
 
 (* rows, 2D: for an input the model accepts, after estimate_ (started on ANY coefficients s0) row r of J is p2p_row of the
@@ -345,11 +347,11 @@ Theorem C05_source_tie_rows_2d :
        (forall c, (c < 3)%nat -> fst s r c = vget N (p2p_row N 2 (S r) (Nr r)) c) /\ snd s r = p2p_y N ps (S r) (Tg r) (Nr r)) /\
     (forall r, (length tr <= r)%nat -> (forall c, fst s r c = fst s0 r c) /\ snd s r = snd s0 r) in
   (triples_of_corr src tgt nrm corr = Some tr ->
-     spec 2%nat (fst (src_estimate_corr_V2 N fJY (f_estimate x) f_setJ f_setY f_setDataSize src tgt nrm corr s0)) /\
-     spec 3%nat (fst (src_estimate_corr_H2 N fJY (f_estimate x) f_setJ f_setY f_setDataSize src tgt nrm corr s0))) /\
+     spec 2%nat (fst (src_estimate_corr_V2 N fJY (f_methods N x) src tgt nrm corr s0)) /\
+     spec 3%nat (fst (src_estimate_corr_H2 N fJY (f_methods N x) src tgt nrm corr s0))) /\
   (triples_aligned src tgt nrm = Some tr ->
-     spec 2%nat (fst (src_estimate_aligned_V2 N fJY (f_estimate x) f_setJ f_setY f_setDataSize src tgt nrm s0)) /\
-     spec 3%nat (fst (src_estimate_aligned_H2 N fJY (f_estimate x) f_setJ f_setY f_setDataSize src tgt nrm s0))).
+     spec 2%nat (fst (src_estimate_aligned_V2 N fJY (f_methods N x) src tgt nrm s0)) /\
+     spec 3%nat (fst (src_estimate_aligned_H2 N fJY (f_methods N x) src tgt nrm s0))).
 Proof. exact (fun T N => source_tie_rows_2d N). Qed.
 Print Assumptions C05_source_tie_rows_2d.
 
@@ -363,11 +365,11 @@ Theorem C05_source_tie_rows_3d :
        (forall c, (c < 6)%nat -> fst s r c = vget N (p2p_row N 3 (S r) (Nr r)) c) /\ snd s r = p2p_y N ps (S r) (Tg r) (Nr r)) /\
     (forall r, (length tr <= r)%nat -> (forall c, fst s r c = fst s0 r c) /\ snd s r = snd s0 r) in
   (triples_of_corr src tgt nrm corr = Some tr ->
-     spec 3%nat (fst (src_estimate_corr_V3 N fJY (f_estimate x) f_setJ f_setY f_setDataSize src tgt nrm corr s0)) /\
-     spec 4%nat (fst (src_estimate_corr_H3 N fJY (f_estimate x) f_setJ f_setY f_setDataSize src tgt nrm corr s0))) /\
+     spec 3%nat (fst (src_estimate_corr_V3 N fJY (f_methods N x) src tgt nrm corr s0)) /\
+     spec 4%nat (fst (src_estimate_corr_H3 N fJY (f_methods N x) src tgt nrm corr s0))) /\
   (triples_aligned src tgt nrm = Some tr ->
-     spec 3%nat (fst (src_estimate_aligned_V3 N fJY (f_estimate x) f_setJ f_setY f_setDataSize src tgt nrm s0)) /\
-     spec 4%nat (fst (src_estimate_aligned_H3 N fJY (f_estimate x) f_setJ f_setY f_setDataSize src tgt nrm s0))).
+     spec 3%nat (fst (src_estimate_aligned_V3 N fJY (f_methods N x) src tgt nrm s0)) /\
+     spec 4%nat (fst (src_estimate_aligned_H3 N fJY (f_methods N x) src tgt nrm s0))).
 Proof. exact (fun T N => source_tie_rows_3d N). Qed.
 Print Assumptions C05_source_tie_rows_3d.
 
@@ -375,14 +377,14 @@ Print Assumptions C05_source_tie_rows_3d.
    (2D: [1 -x2 x0; x2 1 x1; 0 0 1], 3D: I + [x3 x4 x5]x with translation x0 x1 x2) *)
 Theorem C05_source_tie_scatter :
   forall (T : Type) (N : NumOps T) (src tgt nrm : list (list T)) (corr : list (nat * nat)) (x : list T),
-  (snd (src_estimate_corr_V2 N unit (u_estimate x) u_setJ u_setY u_setDataSize src tgt nrm corr tt) = p2p_scatter N 2 x /\
-   snd (src_estimate_corr_H2 N unit (u_estimate x) u_setJ u_setY u_setDataSize src tgt nrm corr tt) = p2p_scatter N 2 x /\
-   snd (src_estimate_aligned_V2 N unit (u_estimate x) u_setJ u_setY u_setDataSize src tgt nrm tt) = p2p_scatter N 2 x /\
-   snd (src_estimate_aligned_H2 N unit (u_estimate x) u_setJ u_setY u_setDataSize src tgt nrm tt) = p2p_scatter N 2 x) /\
-  (snd (src_estimate_corr_V3 N unit (u_estimate x) u_setJ u_setY u_setDataSize src tgt nrm corr tt) = p2p_scatter N 3 x /\
-   snd (src_estimate_corr_H3 N unit (u_estimate x) u_setJ u_setY u_setDataSize src tgt nrm corr tt) = p2p_scatter N 3 x /\
-   snd (src_estimate_aligned_V3 N unit (u_estimate x) u_setJ u_setY u_setDataSize src tgt nrm tt) = p2p_scatter N 3 x /\
-   snd (src_estimate_aligned_H3 N unit (u_estimate x) u_setJ u_setY u_setDataSize src tgt nrm tt) = p2p_scatter N 3 x).
+  (snd (src_estimate_corr_V2 N unit (u_methods x) src tgt nrm corr tt) = p2p_scatter N 2 x /\
+   snd (src_estimate_corr_H2 N unit (u_methods x) src tgt nrm corr tt) = p2p_scatter N 2 x /\
+   snd (src_estimate_aligned_V2 N unit (u_methods x) src tgt nrm tt) = p2p_scatter N 2 x /\
+   snd (src_estimate_aligned_H2 N unit (u_methods x) src tgt nrm tt) = p2p_scatter N 2 x) /\
+  (snd (src_estimate_corr_V3 N unit (u_methods x) src tgt nrm corr tt) = p2p_scatter N 3 x /\
+   snd (src_estimate_corr_H3 N unit (u_methods x) src tgt nrm corr tt) = p2p_scatter N 3 x /\
+   snd (src_estimate_aligned_V3 N unit (u_methods x) src tgt nrm tt) = p2p_scatter N 3 x /\
+   snd (src_estimate_aligned_H3 N unit (u_methods x) src tgt nrm tt) = p2p_scatter N 3 x).
 Proof. exact (fun T N => source_tie_scatter N). Qed.
 Print Assumptions C05_source_tie_scatter.
 
@@ -392,28 +394,28 @@ Print Assumptions C05_source_tie_scatter.
 Theorem C05_source_tie_estimate :
   forall (T : Type) (N : NumOps T) inverse_of svd_of (fill : T) (svd_fixed : bool)
          (src tgt nrm : list (list T)) (corr : list (nat * nat)) (tr : list ((list T * list T) * list T)) (st : ls_state (T:=T)),
-  let oe := o_estimate N svd_of svd_fixed in let od := o_setDataSize N fill in
+  let om := o_methods N svd_of fill svd_fixed in
   (triples_of_corr src tgt nrm corr = Some tr ->
      (ready 3 st ->
-        pack (src_estimate_corr_V2 N (option ls_state) oe o_setJ o_setY od src tgt nrm corr (Some st))
+        pack (src_estimate_corr_V2 N (option ls_state) om src tgt nrm corr (Some st))
         = p2p_find_corr N inverse_of svd_of fill svd_fixed 2 2 src tgt nrm corr st /\
-        pack (src_estimate_corr_H2 N (option ls_state) oe o_setJ o_setY od src tgt nrm corr (Some st))
+        pack (src_estimate_corr_H2 N (option ls_state) om src tgt nrm corr (Some st))
         = p2p_find_corr N inverse_of svd_of fill svd_fixed 2 3 src tgt nrm corr st) /\
      (ready 6 st ->
-        pack (src_estimate_corr_V3 N (option ls_state) oe o_setJ o_setY od src tgt nrm corr (Some st))
+        pack (src_estimate_corr_V3 N (option ls_state) om src tgt nrm corr (Some st))
         = p2p_find_corr N inverse_of svd_of fill svd_fixed 3 3 src tgt nrm corr st /\
-        pack (src_estimate_corr_H3 N (option ls_state) oe o_setJ o_setY od src tgt nrm corr (Some st))
+        pack (src_estimate_corr_H3 N (option ls_state) om src tgt nrm corr (Some st))
         = p2p_find_corr N inverse_of svd_of fill svd_fixed 3 4 src tgt nrm corr st)) /\
   (triples_aligned src tgt nrm = Some tr ->
      (ready 3 st ->
-        pack (src_estimate_aligned_V2 N (option ls_state) oe o_setJ o_setY od src tgt nrm (Some st))
+        pack (src_estimate_aligned_V2 N (option ls_state) om src tgt nrm (Some st))
         = p2p_find_aligned N inverse_of svd_of fill svd_fixed 2 2 src tgt nrm st /\
-        pack (src_estimate_aligned_H2 N (option ls_state) oe o_setJ o_setY od src tgt nrm (Some st))
+        pack (src_estimate_aligned_H2 N (option ls_state) om src tgt nrm (Some st))
         = p2p_find_aligned N inverse_of svd_of fill svd_fixed 2 3 src tgt nrm st) /\
      (ready 6 st ->
-        pack (src_estimate_aligned_V3 N (option ls_state) oe o_setJ o_setY od src tgt nrm (Some st))
+        pack (src_estimate_aligned_V3 N (option ls_state) om src tgt nrm (Some st))
         = p2p_find_aligned N inverse_of svd_of fill svd_fixed 3 3 src tgt nrm st /\
-        pack (src_estimate_aligned_H3 N (option ls_state) oe o_setJ o_setY od src tgt nrm (Some st))
+        pack (src_estimate_aligned_H3 N (option ls_state) om src tgt nrm (Some st))
         = p2p_find_aligned N inverse_of svd_of fill svd_fixed 3 4 src tgt nrm st)).
 Proof. exact (fun T N => source_tie_estimate N). Qed.
 Print Assumptions C05_source_tie_estimate.
@@ -421,40 +423,38 @@ Print Assumptions C05_source_tie_estimate.
 (* the public find overloads are estimate_ (for any solver object); the PreconditionedPointSet overloads are estimate_ on the
    point sets returned by get() *)
 Theorem C05_source_tie_find :
-  forall (T : Type) (N : NumOps T) (Ls : Type) (Fe : Ls -> Ls * list T) (FJ : Ls -> nat -> nat -> T -> Ls) (FY : Ls -> nat -> T -> Ls)
-         (Fd : Ls -> nat -> Ls * bool) (src tgt nrm : list (list T)) (corr : list (nat * nat)) (ls : Ls),
-  (src_find_corr_V2 N Ls Fe FJ FY Fd src tgt nrm corr ls = src_estimate_corr_V2 N Ls Fe FJ FY Fd src tgt nrm corr ls /\
-   src_find_aligned_V2 N Ls Fe FJ FY Fd src tgt nrm ls = src_estimate_aligned_V2 N Ls Fe FJ FY Fd src tgt nrm ls /\
-   src_find_pre_corr_V2 N Ls Fe FJ FY Fd nrm corr ls src tgt = src_estimate_corr_V2 N Ls Fe FJ FY Fd src tgt nrm corr ls /\
-   src_find_pre_aligned_V2 N Ls Fe FJ FY Fd nrm ls src tgt = src_estimate_aligned_V2 N Ls Fe FJ FY Fd src tgt nrm ls) /\
-  (src_find_corr_H2 N Ls Fe FJ FY Fd src tgt nrm corr ls = src_estimate_corr_H2 N Ls Fe FJ FY Fd src tgt nrm corr ls /\
-   src_find_aligned_H2 N Ls Fe FJ FY Fd src tgt nrm ls = src_estimate_aligned_H2 N Ls Fe FJ FY Fd src tgt nrm ls /\
-   src_find_pre_corr_H2 N Ls Fe FJ FY Fd nrm corr ls src tgt = src_estimate_corr_H2 N Ls Fe FJ FY Fd src tgt nrm corr ls /\
-   src_find_pre_aligned_H2 N Ls Fe FJ FY Fd nrm ls src tgt = src_estimate_aligned_H2 N Ls Fe FJ FY Fd src tgt nrm ls) /\
-  (src_find_corr_V3 N Ls Fe FJ FY Fd src tgt nrm corr ls = src_estimate_corr_V3 N Ls Fe FJ FY Fd src tgt nrm corr ls /\
-   src_find_aligned_V3 N Ls Fe FJ FY Fd src tgt nrm ls = src_estimate_aligned_V3 N Ls Fe FJ FY Fd src tgt nrm ls /\
-   src_find_pre_corr_V3 N Ls Fe FJ FY Fd nrm corr ls src tgt = src_estimate_corr_V3 N Ls Fe FJ FY Fd src tgt nrm corr ls /\
-   src_find_pre_aligned_V3 N Ls Fe FJ FY Fd nrm ls src tgt = src_estimate_aligned_V3 N Ls Fe FJ FY Fd src tgt nrm ls) /\
-  (src_find_corr_H3 N Ls Fe FJ FY Fd src tgt nrm corr ls = src_estimate_corr_H3 N Ls Fe FJ FY Fd src tgt nrm corr ls /\
-   src_find_aligned_H3 N Ls Fe FJ FY Fd src tgt nrm ls = src_estimate_aligned_H3 N Ls Fe FJ FY Fd src tgt nrm ls /\
-   src_find_pre_corr_H3 N Ls Fe FJ FY Fd nrm corr ls src tgt = src_estimate_corr_H3 N Ls Fe FJ FY Fd src tgt nrm corr ls /\
-   src_find_pre_aligned_H3 N Ls Fe FJ FY Fd nrm ls src tgt = src_estimate_aligned_H3 N Ls Fe FJ FY Fd src tgt nrm ls).
+  forall (T : Type) (N : NumOps T) (Ls : Type) (M : LsMethods T Ls) (src tgt nrm : list (list T)) (corr : list (nat * nat)) (ls : Ls),
+  (src_find_corr_V2 N Ls M src tgt nrm corr ls = src_estimate_corr_V2 N Ls M src tgt nrm corr ls /\
+   src_find_aligned_V2 N Ls M src tgt nrm ls = src_estimate_aligned_V2 N Ls M src tgt nrm ls /\
+   src_find_pre_corr_V2 N Ls M nrm corr ls src tgt = src_estimate_corr_V2 N Ls M src tgt nrm corr ls /\
+   src_find_pre_aligned_V2 N Ls M nrm ls src tgt = src_estimate_aligned_V2 N Ls M src tgt nrm ls) /\
+  (src_find_corr_H2 N Ls M src tgt nrm corr ls = src_estimate_corr_H2 N Ls M src tgt nrm corr ls /\
+   src_find_aligned_H2 N Ls M src tgt nrm ls = src_estimate_aligned_H2 N Ls M src tgt nrm ls /\
+   src_find_pre_corr_H2 N Ls M nrm corr ls src tgt = src_estimate_corr_H2 N Ls M src tgt nrm corr ls /\
+   src_find_pre_aligned_H2 N Ls M nrm ls src tgt = src_estimate_aligned_H2 N Ls M src tgt nrm ls) /\
+  (src_find_corr_V3 N Ls M src tgt nrm corr ls = src_estimate_corr_V3 N Ls M src tgt nrm corr ls /\
+   src_find_aligned_V3 N Ls M src tgt nrm ls = src_estimate_aligned_V3 N Ls M src tgt nrm ls /\
+   src_find_pre_corr_V3 N Ls M nrm corr ls src tgt = src_estimate_corr_V3 N Ls M src tgt nrm corr ls /\
+   src_find_pre_aligned_V3 N Ls M nrm ls src tgt = src_estimate_aligned_V3 N Ls M src tgt nrm ls) /\
+  (src_find_corr_H3 N Ls M src tgt nrm corr ls = src_estimate_corr_H3 N Ls M src tgt nrm corr ls /\
+   src_find_aligned_H3 N Ls M src tgt nrm ls = src_estimate_aligned_H3 N Ls M src tgt nrm ls /\
+   src_find_pre_corr_H3 N Ls M nrm corr ls src tgt = src_estimate_corr_H3 N Ls M src tgt nrm corr ls /\
+   src_find_pre_aligned_H3 N Ls M nrm ls src tgt = src_estimate_aligned_H3 N Ls M src tgt nrm ls).
 Proof. exact (fun T N => source_tie_find N). Qed.
 Print Assumptions C05_source_tie_find.
 
 (* constructor (default-constructed solver, estimate size 3 | 6) and setPreconditioner (Ac = Identity with the leading
    d x d block divided by the (0,0) coefficient of the TARGET set's preconditioning matrix, one-argument setPreconditionner) *)
 Theorem C05_source_tie_new_and_preconditioner :
-  forall (T : Type) (N : NumOps T) (st : ls_state (T:=T)) (M : list (list T)),
-  let ses := fun (s : ls_state (T:=T)) k => ls_set_estimate_size N k s in
-  let spa := fun (s : ls_state (T:=T)) A => ls_set_precond_A N A s in
-  (src_new_V2 ls_state ls_new0 ses = p2p_new N 2 /\ src_new_H2 ls_state ls_new0 ses = p2p_new N 2 /\
-   src_new_V3 ls_state ls_new0 ses = p2p_new N 3 /\ src_new_H3 ls_state ls_new0 ses = p2p_new N 3) /\
-  (src_setPreconditioner_V2 N ls_state spa st M = p2p_set_preconditioner N 2 (mget N M 0 0) st /\
-   src_setPreconditioner_H2 N ls_state spa st M = p2p_set_preconditioner N 2 (mget N M 0 0) st /\
-   src_setPreconditioner_V3 N ls_state spa st M = p2p_set_preconditioner N 3 (mget N M 0 0) st /\
-   src_setPreconditioner_H3 N ls_state spa st M = p2p_set_preconditioner N 3 (mget N M 0 0) st).
-Proof. exact (fun T N st M => conj (tie_new N) (tie_setPreconditioner N st M)). Qed.
+  forall (T : Type) (N : NumOps T) svd_of (fill : T) (svd_fixed : bool) (st : ls_state (T:=T)) (P : list (list T)),
+  let om := o_methods N svd_of fill svd_fixed in
+  (src_new_V2 (option ls_state) om = Some (p2p_new N 2) /\ src_new_H2 (option ls_state) om = Some (p2p_new N 2) /\
+   src_new_V3 (option ls_state) om = Some (p2p_new N 3) /\ src_new_H3 (option ls_state) om = Some (p2p_new N 3)) /\
+  (src_setPreconditioner_V2 N (option ls_state) om (Some st) P = Some (p2p_set_preconditioner N 2 (mget N P 0 0) st) /\
+   src_setPreconditioner_H2 N (option ls_state) om (Some st) P = Some (p2p_set_preconditioner N 2 (mget N P 0 0) st) /\
+   src_setPreconditioner_V3 N (option ls_state) om (Some st) P = Some (p2p_set_preconditioner N 3 (mget N P 0 0) st) /\
+   src_setPreconditioner_H3 N (option ls_state) om (Some st) P = Some (p2p_set_preconditioner N 3 (mget N P 0 0) st)).
+Proof. exact (fun T N svd_of fill svd_fixed st P => conj (tie_new N svd_of fill svd_fixed) (tie_setPreconditioner N svd_of fill svd_fixed st P)). Qed.
 Print Assumptions C05_source_tie_new_and_preconditioner.
 
 (* COROLLARY: C05's residual identity (first theorem of this file) stated directly about the coefficients written by the
@@ -470,11 +470,11 @@ Theorem C05_source_tie_residual_identity_2d :
              vget ROps n_ 1 * ((vget ROps s_ 1 + z 2%nat * vget ROps s_ 0) + z 1%nat - vget ROps t_ 1) in
   let same_w := vget ROps s_ 2 = vget ROps t_ 2 in
   (triples_of_corr src tgt nrm corr = Some tr ->
-     res (fst (src_estimate_corr_V2 ROps fJY (f_estimate x) f_setJ f_setY f_setDataSize src tgt nrm corr s0)) = lin /\
-     (same_w -> res (fst (src_estimate_corr_H2 ROps fJY (f_estimate x) f_setJ f_setY f_setDataSize src tgt nrm corr s0)) = lin)) /\
+     res (fst (src_estimate_corr_V2 ROps fJY (f_methods ROps x) src tgt nrm corr s0)) = lin /\
+     (same_w -> res (fst (src_estimate_corr_H2 ROps fJY (f_methods ROps x) src tgt nrm corr s0)) = lin)) /\
   (triples_aligned src tgt nrm = Some tr ->
-     res (fst (src_estimate_aligned_V2 ROps fJY (f_estimate x) f_setJ f_setY f_setDataSize src tgt nrm s0)) = lin /\
-     (same_w -> res (fst (src_estimate_aligned_H2 ROps fJY (f_estimate x) f_setJ f_setY f_setDataSize src tgt nrm s0)) = lin)).
+     res (fst (src_estimate_aligned_V2 ROps fJY (f_methods ROps x) src tgt nrm s0)) = lin /\
+     (same_w -> res (fst (src_estimate_aligned_H2 ROps fJY (f_methods ROps x) src tgt nrm s0)) = lin)).
 Proof. exact source_residual_identity_2d. Qed.
 Print Assumptions C05_source_tie_residual_identity_2d.
 
@@ -488,11 +488,11 @@ Theorem C05_source_tie_residual_identity_3d :
              vget ROps n_ 2 * ((vget ROps s_ 2 + (z 3%nat * vget ROps s_ 1 - z 4%nat * vget ROps s_ 0)) + z 2%nat - vget ROps t_ 2) in
   let same_w := vget ROps s_ 3 = vget ROps t_ 3 in
   (triples_of_corr src tgt nrm corr = Some tr ->
-     res (fst (src_estimate_corr_V3 ROps fJY (f_estimate x) f_setJ f_setY f_setDataSize src tgt nrm corr s0)) = lin /\
-     (same_w -> res (fst (src_estimate_corr_H3 ROps fJY (f_estimate x) f_setJ f_setY f_setDataSize src tgt nrm corr s0)) = lin)) /\
+     res (fst (src_estimate_corr_V3 ROps fJY (f_methods ROps x) src tgt nrm corr s0)) = lin /\
+     (same_w -> res (fst (src_estimate_corr_H3 ROps fJY (f_methods ROps x) src tgt nrm corr s0)) = lin)) /\
   (triples_aligned src tgt nrm = Some tr ->
-     res (fst (src_estimate_aligned_V3 ROps fJY (f_estimate x) f_setJ f_setY f_setDataSize src tgt nrm s0)) = lin /\
-     (same_w -> res (fst (src_estimate_aligned_H3 ROps fJY (f_estimate x) f_setJ f_setY f_setDataSize src tgt nrm s0)) = lin)).
+     res (fst (src_estimate_aligned_V3 ROps fJY (f_methods ROps x) src tgt nrm s0)) = lin /\
+     (same_w -> res (fst (src_estimate_aligned_H3 ROps fJY (f_methods ROps x) src tgt nrm s0)) = lin)).
 Proof. exact source_residual_identity_3d. Qed.
 Print Assumptions C05_source_tie_residual_identity_3d.
 
